@@ -294,6 +294,7 @@ func checkC06(p *Program, r *Report) {
 	checkRunLengthIndependence(p, r, models, "R06.6", true)
 	checkBufferRefill(p, r, models)
 	checkEntryClamps(p, r, models)
+	checkStatesHandedOn(p, r, models)
 	r.Floor("R06.1", "stateful kernels", nStateful, 17)
 	r.Floor("R06.3", "wrappers", nWrap, 41)
 	checkPackExtract(p, r, models)
@@ -468,6 +469,7 @@ func analyseCarry(p *Program, r *Report, k *ssa.Function, key string, stateParam
 		}
 		// carried memory
 		checkCarriedMemory(p, r, k, key, l, stateParams)
+		checkCarriedStructFields(p, r, k, key, l, stateParams)
 	}
 }
 
